@@ -31,24 +31,53 @@ func (p provSet) add(q provSet) {
 	}
 }
 
-type provAn struct {
-	c    *Ctx
-	memo map[ssa.Value]provSet
-	busy map[ssa.Value]bool
-	ret  map[string]provSet // function+index
+// pval is a value together with the calling context it is to be read in.
+type pval struct {
+	v   ssa.Value
+	ctx *provCtx
 }
 
-func (a *provAn) of(v ssa.Value, depth int) provSet {
-	if p, ok := a.memo[v]; ok {
+// provCtx is one activation on the analysis stack: the call site it was entered through and what
+// the callee's parameters and captured variables stand for there.  Function values handed down
+// as arguments or captured by closures are resolved through it, so a helper that takes the
+// element writer as a func parameter is followed into the literal that was passed.
+type provCtx struct {
+	parent *provCtx
+	site   ssa.Instruction
+	params map[*ssa.Parameter]pval
+	fvs    map[*ssa.FreeVar]pval
+}
+
+func (c *provCtx) onStack(site ssa.Instruction) bool {
+	for ; c != nil; c = c.parent {
+		if c.site == site {
+			return true
+		}
+	}
+	return false
+}
+
+type provAn struct {
+	c    *Ctx
+	memo map[pval]provSet
+	busy map[pval]bool
+}
+
+func (a *provAn) of(v ssa.Value, ctx *provCtx, depth int) provSet {
+	k := pval{v, ctx}
+	if p, ok := a.memo[k]; ok {
 		return p
 	}
-	if a.busy[v] || depth > 40 {
+	if a.busy[k] {
 		return provSet{}
 	}
-	a.busy[v] = true
-	p := a.compute(v, depth)
-	a.busy[v] = false
-	a.memo[v] = p
+	if depth > 200 {
+		return provSet{"unknown:analysis depth": true}
+	}
+	a.busy[k] = true
+	p := a.compute(v, ctx, depth)
+	a.busy[k] = false
+	a.memo[k] = p
 	return p
 }
 
@@ -63,7 +92,71 @@ func isBytesOrString(t types.Type) bool {
 	return false
 }
 
-func (a *provAn) compute(v ssa.Value, depth int) provSet {
+// resolve follows parameters and captured variables to what they stand for in the callers.
+func (a *provAn) resolve(v ssa.Value, ctx *provCtx) pval {
+	for i := 0; i < 64; i++ {
+		switch x := v.(type) {
+		case *ssa.Parameter:
+			if ctx != nil {
+				if b, ok := ctx.params[x]; ok {
+					v, ctx = b.v, b.ctx
+					continue
+				}
+			}
+		case *ssa.FreeVar:
+			if ctx != nil {
+				if b, ok := ctx.fvs[x]; ok {
+					v, ctx = b.v, b.ctx
+					continue
+				}
+			}
+		}
+		break
+	}
+	return pval{v, ctx}
+}
+
+// storesTo: the values stored into the local cell al (of context ctx), by the function that owns
+// it and by the closures that capture it.
+func (a *provAn) storesTo(al *ssa.Alloc, ctx *provCtx, depth int) (provSet, bool) {
+	out := provSet{}
+	stored := false
+	var viaAddr func(addr ssa.Value, actx *provCtx, d int)
+	viaAddr = func(addr ssa.Value, actx *provCtx, d int) {
+		if d > 8 || addr.Referrers() == nil {
+			return
+		}
+		for _, ref := range *addr.Referrers() {
+			switch r := ref.(type) {
+			case *ssa.Store:
+				if r.Addr == addr {
+					stored = true
+					out.add(a.of(r.Val, actx, depth+1))
+				}
+			case *ssa.MakeClosure:
+				fn, _ := r.Fn.(*ssa.Function)
+				if fn == nil {
+					continue
+				}
+				inner := &provCtx{parent: actx, site: r, fvs: map[*ssa.FreeVar]pval{}}
+				for i, b := range r.Bindings {
+					if i < len(fn.FreeVars) {
+						inner.fvs[fn.FreeVars[i]] = pval{b, actx}
+					}
+				}
+				for i, b := range r.Bindings {
+					if b == addr && i < len(fn.FreeVars) {
+						viaAddr(fn.FreeVars[i], inner, d+1)
+					}
+				}
+			}
+		}
+	}
+	viaAddr(al, ctx, 0)
+	return out, stored
+}
+
+func (a *provAn) compute(v ssa.Value, ctx *provCtx, depth int) provSet {
 	out := provSet{}
 	switch x := v.(type) {
 	case *ssa.Const:
@@ -71,86 +164,180 @@ func (a *provAn) compute(v ssa.Value, depth int) provSet {
 	case *ssa.Alloc, *ssa.MakeSlice, *ssa.MakeMap:
 		out["fresh"] = true
 	case *ssa.Parameter:
-		out["param:"+x.Name()] = true
+		if r := a.resolve(x, ctx); r.v != v {
+			out.add(a.of(r.v, r.ctx, depth+1))
+		} else {
+			out["param:"+x.Name()] = true
+		}
 	case *ssa.FreeVar:
-		out["unknown:captured variable "+x.Name()] = true
+		if r := a.resolve(x, ctx); r.v != v {
+			out.add(a.of(r.v, r.ctx, depth+1))
+		} else {
+			out["unknown:captured variable "+x.Name()] = true
+		}
 	case *ssa.Global:
 		out["shared:package-level variable "+x.Name()] = true
 	case *ssa.Slice:
-		out.add(a.of(x.X, depth+1))
+		out.add(a.of(x.X, ctx, depth+1))
 	case *ssa.Phi:
 		for _, e := range x.Edges {
-			out.add(a.of(e, depth+1))
+			out.add(a.of(e, ctx, depth+1))
 		}
 	case *ssa.ChangeType:
-		out.add(a.of(x.X, depth+1))
+		out.add(a.of(x.X, ctx, depth+1))
 	case *ssa.Convert:
 		// []byte(string) and string([]byte) copy
 		out["fresh"] = true
 	case *ssa.MakeInterface:
-		out.add(a.of(x.X, depth+1))
+		out.add(a.of(x.X, ctx, depth+1))
 	case *ssa.TypeAssert:
-		out.add(a.of(x.X, depth+1))
+		out.add(a.of(x.X, ctx, depth+1))
 	case *ssa.Extract:
 		if call, ok := x.Tuple.(*ssa.Call); ok {
-			out.add(a.call(call, x.Index, depth+1))
+			out.add(a.call(call, x.Index, ctx, depth+1))
 		} else {
-			out.add(a.of(x.Tuple, depth+1))
+			out.add(a.of(x.Tuple, ctx, depth+1))
 		}
 	case *ssa.FieldAddr:
-		out.add(a.of(x.X, depth+1))
+		out.add(a.of(x.X, ctx, depth+1))
 	case *ssa.IndexAddr:
-		out.add(a.of(x.X, depth+1))
+		out.add(a.of(x.X, ctx, depth+1))
+	case *ssa.Index:
+		out.add(a.of(x.X, ctx, depth+1))
 	case *ssa.UnOp:
 		if x.Op != token.MUL {
 			out["fresh"] = true
 			break
 		}
-		// load: from a local cell → everything stored into it; otherwise where the address comes from
-		if al, ok := x.X.(*ssa.Alloc); ok {
-			stored := false
-			for _, ref := range *al.Referrers() {
-				if st, ok := ref.(*ssa.Store); ok && st.Addr == al {
-					stored = true
-					out.add(a.of(st.Val, depth+1))
-				}
-			}
+		// load: from a local cell → everything stored into it (by its function and by the
+		// closures that capture it); otherwise where the address comes from
+		r := a.resolve(x.X, ctx)
+		if al, ok := r.v.(*ssa.Alloc); ok {
+			st, stored := a.storesTo(al, r.ctx, depth)
+			out.add(st)
 			if !stored {
 				out["fresh"] = true
 			}
 			// the cell's address may have been handed to a callee that fills it (e.g. a bytes.Buffer value)
 			break
 		}
-		out.add(a.of(x.X, depth+1))
+		out.add(a.of(r.v, r.ctx, depth+1))
 	case *ssa.Call:
-		out.add(a.call(x, 0, depth+1))
+		out.add(a.call(x, 0, ctx, depth+1))
 	default:
 		out[fmt.Sprintf("unknown:%T", v)] = true
 	}
 	return out
 }
 
-func (a *provAn) call(call *ssa.Call, idx int, depth int) provSet {
+// callees: the functions a call's function value may be, each with the context of its captured
+// variables; nil when the value cannot be traced to function literals or declarations.
+func (a *provAn) callees(v ssa.Value, ctx *provCtx, depth int) []pval {
+	if depth > 16 {
+		return nil
+	}
+	r := a.resolve(v, ctx)
+	switch x := r.v.(type) {
+	case *ssa.Function:
+		return []pval{{x, nil}}
+	case *ssa.MakeClosure:
+		fn, _ := x.Fn.(*ssa.Function)
+		if fn == nil {
+			return nil
+		}
+		inner := &provCtx{parent: r.ctx, site: x, fvs: map[*ssa.FreeVar]pval{}}
+		for i, b := range x.Bindings {
+			if i < len(fn.FreeVars) {
+				inner.fvs[fn.FreeVars[i]] = pval{b, r.ctx}
+			}
+		}
+		return []pval{{fn, inner}}
+	case *ssa.Phi:
+		var out []pval
+		for _, e := range x.Edges {
+			cs := a.callees(e, r.ctx, depth+1)
+			if cs == nil {
+				return nil
+			}
+			out = append(out, cs...)
+		}
+		return out
+	case *ssa.ChangeType:
+		return a.callees(x.X, r.ctx, depth+1)
+	case *ssa.UnOp:
+		if x.Op != token.MUL {
+			return nil
+		}
+		ar := a.resolve(x.X, r.ctx)
+		al, ok := ar.v.(*ssa.Alloc)
+		if !ok {
+			return nil
+		}
+		// a local variable of function type: every function stored into it
+		var out []pval
+		for _, ref := range *al.Referrers() {
+			switch st := ref.(type) {
+			case *ssa.Store:
+				if st.Addr != al {
+					return nil
+				}
+				if c, isConst := st.Val.(*ssa.Const); isConst && c.IsNil() {
+					continue
+				}
+				cs := a.callees(st.Val, ar.ctx, depth+1)
+				if cs == nil {
+					return nil
+				}
+				out = append(out, cs...)
+			case *ssa.UnOp, *ssa.DebugRef:
+			default:
+				return nil // the address escapes
+			}
+		}
+		return out
+	}
+	return nil
+}
+
+func (a *provAn) call(call *ssa.Call, idx int, ctx *provCtx, depth int) provSet {
 	out := provSet{}
 	com := call.Common()
 	if b, ok := com.Value.(*ssa.Builtin); ok {
 		switch b.Name() {
 		case "append":
-			out.add(a.of(com.Args[0], depth+1))
+			out.add(a.of(com.Args[0], ctx, depth+1))
 		default:
 			out["fresh"] = true
 		}
 		return out
 	}
-	f := com.StaticCallee()
-	if f == nil {
-		if com.IsInvoke() {
-			out["unknown:interface method "+com.Method.Name()] = true
-		} else {
-			out["unknown:dynamic call"] = true
-		}
+	if com.IsInvoke() {
+		out["unknown:interface method "+com.Method.Name()] = true
 		return out
 	}
+	var targets []pval
+	if f := com.StaticCallee(); f != nil {
+		if _, isClosure := com.Value.(*ssa.MakeClosure); isClosure {
+			targets = a.callees(com.Value, ctx, 0)
+		} else {
+			targets = []pval{{f, nil}}
+		}
+	} else {
+		targets = a.callees(com.Value, ctx, 0)
+	}
+	if len(targets) == 0 {
+		out["unknown:dynamic call"] = true
+		return out
+	}
+	for _, t := range targets {
+		out.add(a.callFn(call, t.v.(*ssa.Function), t.ctx, idx, ctx, depth))
+	}
+	return out
+}
+
+func (a *provAn) callFn(call *ssa.Call, f *ssa.Function, fvctx *provCtx, idx int, ctx *provCtx, depth int) provSet {
+	out := provSet{}
+	com := call.Common()
 	full := f.String()
 	switch {
 	case full == "(*sync.Pool).Get":
@@ -158,23 +345,23 @@ func (a *provAn) call(call *ssa.Call, idx int, depth int) provSet {
 		return out
 	case full == "(*bytes.Buffer).Bytes":
 		// the buffer's own storage: as fresh or as shared as the buffer object
-		out.add(a.bufferProv(com.Args[0], depth+1))
+		out.add(a.bufferProv(com.Args[0], ctx, depth+1))
 		return out
 	case full == "(*bytes.Buffer).String", full == "(*strings.Builder).String":
 		if full == "(*bytes.Buffer).String" {
 			out["fresh"] = true
 		} else {
-			out.add(a.bufferProv(com.Args[0], depth+1))
+			out.add(a.bufferProv(com.Args[0], ctx, depth+1))
 		}
 		return out
 	case full == "bytes.NewBuffer" || full == "bytes.NewBufferString":
-		out.add(a.of(com.Args[0], depth+1))
+		out.add(a.of(com.Args[0], ctx, depth+1))
 		return out
 	case strings.HasPrefix(full, "strconv.Append"):
-		out.add(a.of(com.Args[0], depth+1))
+		out.add(a.of(com.Args[0], ctx, depth+1))
 		return out
 	case strings.HasPrefix(full, "bytes.Trim") || full == "bytes.TrimSpace":
-		out.add(a.of(com.Args[0], depth+1))
+		out.add(a.of(com.Args[0], ctx, depth+1))
 		return out
 	case f.Pkg != nil && (f.Pkg.Pkg.Path() == "encoding/json" || f.Pkg.Pkg.Path() == "encoding/hex" || f.Pkg.Pkg.Path() == "strconv" || f.Pkg.Pkg.Path() == "fmt" || f.Pkg.Pkg.Path() == "strings"):
 		out["fresh"] = true
@@ -184,40 +371,45 @@ func (a *provAn) call(call *ssa.Call, idx int, depth int) provSet {
 		out["unknown:result of "+full] = true
 		return out
 	}
-	// repo (or other source) callee: union over its returns, parameters mapped to the arguments
+	if ctx.onStack(call) {
+		return out // a recursive activation adds nothing the outer one does not see
+	}
+	// repo (or other source) callee: union over its returns, read in a context where its
+	// parameters stand for the arguments of this call
+	inner := &provCtx{parent: ctx, site: call, params: map[*ssa.Parameter]pval{}, fvs: map[*ssa.FreeVar]pval{}}
+	if fvctx != nil {
+		for k, v := range fvctx.fvs {
+			inner.fvs[k] = v
+		}
+	}
+	for i, p := range f.Params {
+		if i < len(com.Args) {
+			inner.params[p] = pval{com.Args[i], ctx}
+		}
+	}
 	for _, b := range f.Blocks {
 		for _, in := range b.Instrs {
 			r, ok := in.(*ssa.Return)
 			if !ok || idx >= len(r.Results) {
 				continue
 			}
-			for k := range a.of(r.Results[idx], depth+1) {
-				if strings.HasPrefix(k, "param:") {
-					name := strings.TrimPrefix(k, "param:")
-					for i, p := range f.Params {
-						if p.Name() == name && i < len(com.Args) {
-							out.add(a.of(com.Args[i], depth+1))
-						}
-					}
-					continue
-				}
-				out[k] = true
-			}
+			out.add(a.of(r.Results[idx], inner, depth+1))
 		}
 	}
 	return out
 }
 
 // bufferProv: provenance of the storage of a *bytes.Buffer / *strings.Builder value.
-func (a *provAn) bufferProv(ptr ssa.Value, depth int) provSet {
+func (a *provAn) bufferProv(ptr ssa.Value, ctx *provCtx, depth int) provSet {
 	out := provSet{}
-	switch x := ptr.(type) {
+	r := a.resolve(ptr, ctx)
+	switch x := r.v.(type) {
 	case *ssa.Alloc:
 		out["fresh"] = true
 	case *ssa.Call:
-		out.add(a.call(x, 0, depth+1))
+		out.add(a.call(x, 0, r.ctx, depth+1))
 	default:
-		out.add(a.of(ptr, depth+1))
+		out.add(a.of(r.v, r.ctx, depth+1))
 	}
 	return out
 }
@@ -234,14 +426,14 @@ func checkFreshResult(c *Ctx, rule string, entries ...*types.Func) {
 			c.Unk(rule, cons, token.NoPos, "no SSA body")
 			continue
 		}
-		an := &provAn{c: c, memo: map[ssa.Value]provSet{}, busy: map[ssa.Value]bool{}}
+		an := &provAn{c: c, memo: map[pval]provSet{}, busy: map[pval]bool{}}
 		all := provSet{}
 		nret := 0
 		for _, b := range sf.Blocks {
 			for _, in := range b.Instrs {
 				if r, ok := in.(*ssa.Return); ok && len(r.Results) > 0 && isBytesOrString(r.Results[0].Type()) {
 					nret++
-					all.add(an.of(r.Results[0], 0))
+					all.add(an.of(r.Results[0], nil, 0))
 				}
 			}
 		}
